@@ -115,7 +115,9 @@ Fixpoint hex_n (n : nat) (s : string) (acc : N) : option (N * string) :=
   end.
 
 (* body after the opening quote; returns the decoded text and the rest after the closing quote *)
-Fixpoint unquote_body (fuel : nat) (s : string) (acc : string) : option (string * string) :=
+(* [json]: with the two JSON escapes that Go string literals lack (parse.go rewrites them
+   before strconv.Unquote); without them this is strconv.Unquote itself *)
+Fixpoint unquote_body (json : bool) (fuel : nat) (s : string) (acc : string) : option (string * string) :=
   match fuel with
   | O => None
   | S f =>
@@ -127,16 +129,16 @@ Fixpoint unquote_body (fuel : nat) (s : string) (acc : string) : option (string 
       else if (c =? 10)%N then None
       else if (128 <=? c)%N then
         match utf8_size s with
-        | O => unquote_body f r (rev_app rune_error acc)
-        | n => unquote_body f (sdrop n s) (rev_app (stake n s) acc)
+        | O => unquote_body json f r (rev_app rune_error acc)
+        | n => unquote_body json f (sdrop n s) (rev_app (stake n s) acc)
         end
-      else if negb (c =? 92)%N then unquote_body f r (String a acc)
+      else if negb (c =? 92)%N then unquote_body json f r (String a acc)
       else
         match r with
         | EmptyString => None
         | String e r2 =>
           let ec := byte_of e in
-          let simple (v : N) := unquote_body f r2 (String (ch v) acc) in
+          let simple (v : N) := unquote_body json f r2 (String (ch v) acc) in
           if (ec =? 97)%N then simple 7%N
           else if (ec =? 98)%N then simple 8%N
           else if (ec =? 102)%N then simple 12%N
@@ -148,11 +150,29 @@ Fixpoint unquote_body (fuel : nat) (s : string) (acc : string) : option (string 
           else if (ec =? 34)%N then simple 34%N
           else if (ec =? 120)%N then
             match hex_n 2 r2 0%N with
-            | Some (v, r3) => unquote_body f r3 (String (ch v) acc)
+            | Some (v, r3) => unquote_body json f r3 (String (ch v) acc)
             | None => None end
+          else if json && (ec =? 47)%N then simple 47%N          (* the JSON escape of a slash (parse.go rewrites it) *)
           else if (ec =? 117)%N || (ec =? 85)%N then
             match hex_n (if (ec =? 117)%N then 4 else 8) r2 0%N with
-            | Some (v, r3) => if valid_rune v then unquote_body f r3 (rev_app (utf8_encode v) acc) else None
+            | Some (v, r3) =>
+              if valid_rune v then unquote_body json f r3 (rev_app (utf8_encode v) acc)
+              else if json && (ec =? 117)%N && in_range v 55296 56319 then
+                (* a JSON surrogate pair: \uD83D\uDE00 is one code point (parse.go rewrites it) *)
+                match r3 with
+                | String b1 (String b2 r4) =>
+                  if ((byte_of b1 =? 92) && (byte_of b2 =? 117))%N then
+                    match hex_n 4 r4 0%N with
+                    | Some (lo, r5) =>
+                      if in_range lo 56320 57343
+                      then unquote_body json f r5 (rev_app (utf8_encode (65536 + (v - 55296) * 1024 + (lo - 56320))%N) acc)
+                      else None
+                    | None => None
+                    end
+                  else None
+                | _ => None
+                end
+              else None
             | None => None end
           else if in_range ec 48 55 then
             match r2 with
@@ -160,7 +180,7 @@ Fixpoint unquote_body (fuel : nat) (s : string) (acc : string) : option (string 
               let x1 := byte_of d1 in let x2 := byte_of d2 in
               if in_range x1 48 55 && in_range x2 48 55 then
                 let v := ((ec - 48) * 64 + (x1 - 48) * 8 + (x2 - 48))%N in
-                if (255 <? v)%N then None else unquote_body f r3 (String (ch v) acc)
+                if (255 <? v)%N then None else unquote_body json f r3 (String (ch v) acc)
               else None
             | _ => None
             end
@@ -169,17 +189,19 @@ Fixpoint unquote_body (fuel : nat) (s : string) (acc : string) : option (string 
     end
   end.
 
-Definition unquote_dq (s : string) : option string :=
+Definition unquote_gen (json : bool) (s : string) : option string :=
   match s with
   | String q body =>
     if Ascii.eqb q """"%char then
-      match unquote_body (S (String.length body)) body EmptyString with
+      match unquote_body json (S (String.length body)) body EmptyString with
       | Some (out, EmptyString) => Some out
       | _ => None
       end
     else None
   | EmptyString => None
   end.
+Definition unquote_dq : string -> option string := unquote_gen true.     (* parse.go *)
+Definition unquote_go : string -> option string := unquote_gen false.    (* strconv.Unquote *)
 
 (** * the parser *)
 Definition bool_word (s : string) : option bool :=
